@@ -242,15 +242,36 @@ func (g *typeGen) fill(v reflect.Value, depth int, mode string) {
 	full := mode == "full"
 	switch v.Kind() {
 	case reflect.Int, reflect.Int8, reflect.Int16, reflect.Int32, reflect.Int64:
-		if full {
+		switch {
+		case r.Intn(4) == 0:
+			// boundary values of the field's width (a value that only fits the full width shows a
+			// read or conversion through a narrower type)
+			bits := uint(v.Type().Bits())
+			max := int64(1)<<(bits-1) - 1
+			v.SetInt([]int64{max, -max - 1, max / 2, 127, 128, 255, 256, 32767, 32768, 65535, 65536, -129, -32769}[r.Intn(13)] % (max + 1))
+			if full && v.Int() == 0 {
+				v.SetInt(max)
+			}
+		case full:
 			v.SetInt(int64(1 + r.Intn(5)))
-		} else {
+		default:
 			v.SetInt(int64(r.Intn(5) - 1))
 		}
 	case reflect.Uint, reflect.Uint8, reflect.Uint16, reflect.Uint32, reflect.Uint64:
-		if full {
+		switch {
+		case r.Intn(4) == 0:
+			bits := uint(v.Type().Bits())
+			max := uint64(1)<<(bits-1)*2 - 1
+			if bits == 64 {
+				max = 1<<63 - 1 // simple data has int64 only: larger values are not generated
+			}
+			v.SetUint([]uint64{max, max / 2, max/2 + 1, 255, 256, 257, 65535, 65536, 4294967295, 4294967296}[r.Intn(10)] % (max + 1))
+			if full && v.Uint() == 0 {
+				v.SetUint(max)
+			}
+		case full:
 			v.SetUint(uint64(1 + r.Intn(4)))
-		} else {
+		default:
 			v.SetUint(uint64(r.Intn(4)))
 		}
 	case reflect.Float32, reflect.Float64:
@@ -450,6 +471,38 @@ func canonText(v any) string {
 	return b.String()
 }
 
+// beyondFloat: the value holds an integer whose magnitude exceeds 2^53.
+func beyondFloat(v reflect.Value) bool {
+	switch v.Kind() {
+	case reflect.Ptr, reflect.Interface:
+		return !v.IsNil() && beyondFloat(v.Elem())
+	case reflect.Int, reflect.Int8, reflect.Int16, reflect.Int32, reflect.Int64:
+		return v.Int() > 1<<53 || v.Int() < -(1<<53)
+	case reflect.Uint, reflect.Uint8, reflect.Uint16, reflect.Uint32, reflect.Uint64:
+		return v.Uint() > 1<<53
+	case reflect.Slice, reflect.Array:
+		for i := 0; i < v.Len(); i++ {
+			if beyondFloat(v.Index(i)) {
+				return true
+			}
+		}
+	case reflect.Map:
+		it := v.MapRange()
+		for it.Next() {
+			if beyondFloat(it.Value()) {
+				return true
+			}
+		}
+	case reflect.Struct:
+		for i := 0; i < v.NumField(); i++ {
+			if beyondFloat(v.Field(i)) {
+				return true
+			}
+		}
+	}
+	return false
+}
+
 // ---- routes ----
 
 type outcome struct {
@@ -606,6 +659,12 @@ func (ck *checker) one(st reflect.Type, pv reflect.Value, label string) {
 
 	// route 2: Marshal + Unmarshal (JSON), route 3: sen.Bytes + sen.Unmarshal
 	hasIfaceStruct := strings.Contains(want, "i:&")
+	if beyondFloat(pv) {
+		// Unmarshal parses with ForceFloat (documented): an integer above 2^53 cannot come back
+		// exactly through the text routes; the Decompose/Recompose route above still carries it
+		c.Cover("skipped:text-route-integer-beyond-2^53")
+		hasIfaceStruct = true
+	}
 	for _, rt := range []struct {
 		name string
 		enc  func() ([]byte, error)
